@@ -17,8 +17,8 @@ Lemma wn_const_false c cs rs g a : walk_node c "const_false" cs rs g a = Ok (EVa
 Proof. reflexivity. Qed.
 
 Lemma wn_list c cs rs g a : walk_node c "list" cs rs g a =
-  match cs, g with
-  | [_], Some l =>
+  match coll_items cs rs g with
+  | Some l =>
       match all_ok l with
       | Ok vs =>
           match all_some (map (fun e => match e with EVal v => Some v | _ => None end) vs) with
@@ -30,9 +30,17 @@ Lemma wn_list c cs rs g a : walk_node c "list" cs rs g a =
           end
       | Err => Err
       end
-  | _, _ => Err
+  | None => Err
   end.
 Proof. reflexivity. Qed.
+
+(* the tree of a constant is never a tuplelist_comp / set_comp node *)
+Lemma strip_dval_kind v : exists d cs, strip (dval v) = LNode d cs /\ mem_str d ["tuplelist_comp"; "set_comp"] = false.
+Proof. destruct v as [|b|z|neg m|neg|s]; simpl; try (eexists; eexists; split; reflexivity).
+  - destruct b; eexists; eexists; split; reflexivity.
+  - destruct (Z.ltb z 0); eexists; eexists; split; reflexivity.
+  - destruct neg; eexists; eexists; split; reflexivity.
+  - destruct neg; eexists; eexists; split; reflexivity. Qed.
 
 Lemma wn_dict c cs rs g a : walk_node c "dict" cs rs g a =
   match cs, g with
